@@ -74,9 +74,13 @@ class Ctx:
         return bool(cond)
 
     def floor(self, rule: str, what: str, count: int, minimum: int, site: str = ""):
-        """Fewer instances than confirmed by reading on the pinned tree: the anchor vanished."""
+        """Fewer instances than confirmed by reading on the pinned tree.  The function / component the instances are
+        looked up in was resolved (an unresolved one raises on its own): the statements that realise the obligation are
+        gone from it.  That is reported as a violation naming the function and what is missing, and the rest of the pack
+        - which would pass vacuously or trip over the hole - is not analysed (ANALYSIS-INCOMPLETE, exit 1)."""
         self.analysed[f"{rule}:{what}"] = count
         if count < minimum:
+            self.bad(f"{rule}.present", site or self.prop, what, found=f"{count} found", required=f"at least {minimum}: the construct that realises the obligation is present")
             raise AnalysisError(rule, site or self.prop, f"only {count} {what} found, floor is {minimum} (anchor vanished)")
 
     def use(self, *relpaths: str):
